@@ -71,7 +71,7 @@ def groups_of(c):
     adds, groups = [], []
     for a, v in c.actions:
         if a == 'add_jumper':
-            adds.append(v['bib'])
+            adds.append(v)
         elif a == 'set_bar_height':
             groups.append((v, []))
         else:
@@ -176,8 +176,8 @@ def examine(case, draw=None, stats=None):
                 continue
             n_inter += 1
             c2 = hjimpl.new_comp()
-            for b in adds:
-                hjimpl.apply(c2, ('add', b))
+            for kw in adds:
+                c2.add_jumper(**kw)          # the entry as it was made (start-list keywords included)
             bad = None
             for gj, (h2, t2) in enumerate(groups):
                 r = hjimpl.apply(c2, ('bar', h2))
@@ -218,6 +218,15 @@ def nontrivial(c):
 
 
 def do_prefix(ctx, bibs, hist, draw, c=None, log_only=False):
+    if draw is not None and draw(3) == 0:
+        # start-list entries made with the optional keywords (names, team, category, jumping order, guest flag): no rule
+        # mentions them, so the competition, its log replay, its card and its interleavings are held to the same clauses
+        hist = list(hist)
+        for i, cl in enumerate(hist):
+            if cl[0] == 'add' and draw(2):
+                hist[i] = (['add:guest', 'add:guest', 'add:full', 'add:order'][draw(4)], cl[1])
+                c = None
+        ctx.label('prefix-with-start-list-keywords')
     case = {'kind': 'history', 'bibs': list(bibs), 'calls': [hjsearch.enc(x) for x in hist]}
     if log_only:
         case['log_only'] = True
